@@ -79,15 +79,19 @@ def insert_quant(
   # and find the first consumer of the new tensor
   first_consumer_id = min(transformation_input.consumers)
   for consumer_id in transformation_input.consumers:
+    # -1 stands for the graph output, which is handled below.
+    if consumer_id == -1:
+      continue
     op = transformation_input.subgraph.operators[consumer_id]
     for input_idx in range(len(op.inputs)):
       if op.inputs[input_idx] == transformation_input.tensor_id:
         op.inputs[input_idx] = new_tensor_id
 
-  # if the output is also an output to the graph, we need to update that as well
-  for output_idx, output in enumerate(transformation_input.subgraph.outputs):
-    if output == transformation_input.tensor_id:
-      transformation_input.subgraph.outputs[output_idx] = new_tensor_id
+  # if the graph output is among the consumers, we need to update that as well
+  if -1 in transformation_input.consumers:
+    for output_idx, output in enumerate(transformation_input.subgraph.outputs):
+      if output == transformation_input.tensor_id:
+        transformation_input.subgraph.outputs[output_idx] = new_tensor_id
 
   # add dequant into the subgraph op list,
   # must insert the op right before it's first consumer
